@@ -215,14 +215,16 @@ def hasWild (prev : Char) : List Char → Bool
   | [] => false
   | c :: r => ((c == '?' || c == '*') && prev != '~') || hasWild c r
 
-/-- PatternToken `\"([^\"]*(?<![~])[?*]+[^\"]*)\"` : (body, rest) -/
+/-- PatternToken `\"((?:[^\"]|\"\")*?(?<![~])[?*]+(?:[^\"]|\"\")*)\"` : (raw body, rest).  The text is delimited as in
+    LiteralToken (a doubled quote stays inside; when no closing quote follows, the regex falls back to the first quote of a
+    pair); it is a pattern when some wildcard in it is not preceded by `~`. -/
 def patternTok (s : List Char) : Option (List Char × List Char) :=
   match s with
   | q :: r =>
     if q = '"' then
-      match r.dropWhile (· != '"') with
-      | _ :: rest => if hasWild '"' (r.takeWhile (· != '"')) then some (r.takeWhile (· != '"'), rest) else none
-      | [] => none
+      match strBody '"' r with
+      | some p => if hasWild '"' p.1 then some p else none
+      | none => none
     else none
   | [] => none
 
@@ -337,7 +339,7 @@ def pinned : List (String × String × String) :=
   [("MatrixOfCellIdentifiersToken", "((\\'((?:[^\\']|\\'\\')*)\\'|(\\w*?))!)?\\$?([A-Z]+)(\\$?(\\d+))?:\\$?([A-Z]+)(\\$?(\\d+))?", "([^\\d].*)?"),
    ("CellIdentifierRangeToken", "((\\'((?:[^\\']|\\'\\')*)\\'|(\\w*?))!)?((\\$?([A-Z]+)(\\$?(\\d+))?:\\$?\\8(\\$?(\\d+))?)|(\\$?([A-Z]+)(\\$?(\\d+))?:\\$?([A-Z]+)(\\$?\\15)?))", "([^\\d$].*)?"),
    ("CellIdentifierToken", "((\\'((?:[^\\']|\\'\\')*)\\'|(\\w*?))!)?\\$?([A-Z]+)\\$?(\\d+)", "([^\\d]|[^:\\d].*)?"),
-   ("PatternToken", "\\\"([^\\\"]*(?<![~])[?*]+[^\\\"]*)\\\"", ".*"),
+   ("PatternToken", "\\\"((?:[^\\\"]|\\\"\\\")*?(?<![~])[?*]+(?:[^\\\"]|\\\"\\\")*)\\\"", ".*"),
    ("LiteralToken", "\\\"((?:[^\\\"]|\\\"\\\")*)\\\"|(\\d+)((\\.)(\\d+))?(e(-?\\d+))?|(TRUE(\\(\\))?)|(FALSE(\\(\\))?)", ".*"),
    ("WhitespaceToken", "[\\s\\n\\t]+", ".*")]
 
